@@ -371,6 +371,16 @@ impl<'a> RecordIter<'a> {
 pub uninterp spec fn dec16(s: Seq<u8>) -> Seq<char>;
 /// the text of a Cow<str>
 pub uninterp spec fn cow_chars(c: Cow<'_, str>) -> Seq<char>;
+// TRUSTED: A-std -- Cow::into_owned returns the owned form of the same text
+pub uninterp spec fn cow_owned<B: std::borrow::ToOwned + ?Sized>(c: Cow<'_, B>) -> <B as std::borrow::ToOwned>::Owned;
+pub assume_specification<'a, B> [std::borrow::Cow::<'_, B>::into_owned] (c: std::borrow::Cow<'a, B>) -> (r: <B as std::borrow::ToOwned>::Owned)
+    where B: std::marker::MetaSized + std::borrow::ToOwned + ?Sized,
+    ensures r == cow_owned(c);
+// TRUSTED: A-std -- for B = str the owned form is the String with the same characters
+#[verifier::external_body]
+pub proof fn axiom_cow_owned_str(c: Cow<'_, str>)
+    ensures cow_owned::<str>(c)@ == cow_chars(c),
+{}
 pub struct Encoding;
 pub struct Utf16LeStandIn;
 pub const UTF_16LE: Utf16LeStandIn = Utf16LeStandIn;
@@ -430,6 +440,73 @@ pub open spec fn cell_format_spec(formats: Seq<CellFormat>, buf: Seq<u8>) -> Opt
 //@@ replace /u32::from_le_bytes/ std signature not nameable in assume_specification; wrapper with the documented contract
 verif_u32_from_le_bytes
 //@@ end
+
+// ---- cell values
+//@@ item src/lib.rs enum CellErrorType keep_attrs
+//@@ item src/datatype.rs enum ExcelDateTimeType keep_attrs
+//@@ item src/datatype.rs struct ExcelDateTime keep_attrs
+//@@ item src/datatype.rs enum DataRef keep_attrs
+//@@ item src/lib.rs trait "trait CellType"
+impl<'a> CellType for DataRef<'a> {}
+//@@ item src/lib.rs struct Cell
+
+// the fields of ExcelDateTime / Cell are private: observe them through spec functions
+pub closed spec fn edt_mk(value: f64, datetime_type: ExcelDateTimeType, is_1904: bool) -> ExcelDateTime {
+    ExcelDateTime { value, datetime_type, is_1904 }
+}
+//@@ impl src/datatype.rs ExcelDateTime
+//@@ fn src/datatype.rs ExcelDateTime::new props=C10 ret=r
+//@@ sig
+    ensures
+        //# C10.edt_new_fields
+        r == edt_mk(value, datetime_type, is_1904),
+//@@ end
+//@@ endimpl
+
+/// C10: a stored double is reported as DateTime exactly when its format is a date/time format (date system flag copied)
+pub open spec fn wrap_f64(value: f64, format: Option<CellFormat>, is_1904: bool) -> DataRef<'static> {
+    match format {
+        Some(CellFormat::DateTime) => DataRef::DateTime(edt_mk(value, ExcelDateTimeType::DateTime, is_1904)),
+        Some(CellFormat::TimeDelta) => DataRef::DateTime(edt_mk(value, ExcelDateTimeType::TimeDelta, is_1904)),
+        _ => DataRef::Float(value),
+    }
+}
+pub open spec fn opt_fmt(format: Option<&CellFormat>) -> Option<CellFormat> { match format { Some(f) => Some(*f), None => None } }
+//@@ fn src/formats.rs format_excel_f64_ref props=C10 ret=r
+//@@ sig
+    ensures
+        //# C10.f64_wrap
+        r == wrap_f64(value, opt_fmt(format), is_1904),
+//@@ end
+
+impl<T: CellType> Cell<T> {
+    pub closed spec fn p(&self) -> (u32, u32) { self.pos }
+    pub closed spec fn v(&self) -> T { self.val }
+}
+//@@ impl src/lib.rs Cell
+//@@ fn src/lib.rs Cell::new props=C03 ret=r
+//@@ sig
+    ensures
+        //# C03.cell_new
+        r.p() == position && r.v() == value,
+//@@ end
+//@@ endimpl
+
+//@@ item src/xlsb/cells_reader.rs struct XlsbCellsReader
+
+//@@ impl src/xlsb/cells_reader.rs XlsbCellsReader
+//@@ fn src/xlsb/cells_reader.rs XlsbCellsReader::next_cell props=C03 entry ret=r
+//@@ sig
+//@@ replace /let value = loop/ Verus has no break-with-value: `let x = loop { .. break v; };` desugared into `let out; loop { .. { out = v; break; } }; let x = out;`
+let verif_out; loop
+//@@ replace /break value;/ (second half of the break-with-value desugaring)
+{ verif_out = value; break; }
+//@@ before /let col = /
+        let value = verif_out;
+//@@ loop 0
+            decreases self.iter.rem().len(),
+//@@ end
+//@@ endimpl
 
 } // verus!
 fn main() {}
